@@ -19,6 +19,8 @@ import (
 
 	"github.com/Cloud-Foundations/keymaster/lib/instrumentedwriter"
 	"github.com/Cloud-Foundations/keymaster/lib/webapi/v0/proto"
+	"github.com/pquerna/otp"
+	"github.com/pquerna/otp/hotp"
 	"github.com/pquerna/otp/totp"
 )
 
@@ -415,12 +417,31 @@ func (state *RuntimeState) validateUserTOTP(username string, OTPValue int, t tim
 			return false, err
 		}
 
-		valid := totp.Validate(OTPString, string(clearTextKey))
-		if !valid {
+		// A value of the previous, the current and the next period is
+		// accepted (as totp.Validate does). Find out which period it
+		// belongs to: a value is good once, and not again while a
+		// neighbouring period would still accept it.
+		matchedCounter := int64(-1)
+		for _, candidate := range []int64{counter, counter - 1, counter + 1} {
+			valid, err := hotp.ValidateCustom(OTPString, uint64(candidate),
+				string(clearTextKey), hotp.ValidateOpts{
+					Digits:    otp.DigitsSix,
+					Algorithm: otp.AlgorithmSHA1,
+				})
+			if err == nil && valid {
+				matchedCounter = candidate
+				break
+			}
+		}
+		if matchedCounter < 0 {
 			continue
 		}
+		if matchedCounter <= profile.LastSuccessfullTOTPCounter {
+			logger.Printf("validateUserTOTP: TOTP value already used")
+			return false, nil
+		}
 		if !fromCache {
-			profile.LastSuccessfullTOTPCounter = counter
+			profile.LastSuccessfullTOTPCounter = matchedCounter
 			err = state.SaveUserProfile(username, profile)
 			if err != nil {
 				logger.Printf("Saving profile error: %v", err)
